@@ -68,7 +68,7 @@ def ssaOutside (doc : List UInt8) : Bool :=
       | c :: rest, n => if c.isDigit then longDigits rest (n + 1) else decide (19 ≤ n) || longDigits rest 0
     longDigits text 0 ||
     (match text with
-     | c :: d :: _ => c = Char.ofNat 0xFEFF && (d = ' ' || d = '\t' || d = Char.ofNat 0xA0 || d = Char.ofNat 12 || d = Char.ofNat 11)
+     | c :: d :: _ => c = Char.ofNat 0xFEFF && Go.isSpace d && d ≠ '\n' && d ≠ '\r'
      | _ => false) ||
     text.any fun c => c = Char.ofNat 0x130 || c = Char.ofNat 0x212A
 
